@@ -282,6 +282,7 @@ type agentObs struct {
 }
 
 var agentSeq int
+var agentHung bool
 var agentDefsOnce sync.Once
 
 func runAgent(sc agentScript) (obs agentObs) {
@@ -300,6 +301,11 @@ func runAgent(sc agentScript) (obs agentObs) {
 	})
 	agentSeq++
 	obs.metrics = map[string]int64{}
+	if agentHung {
+		// an earlier run of this process never returned from its stop; its goroutines still hold ports and files
+		obs.panics = append(obs.panics, "generation 0: the stop did not return within 12 s (seen in an earlier case of this run; not retried)")
+		return obs
+	}
 	rng := rand.New(rand.NewSource(sc.seed))
 	root := filepath.Join(workRootDir(), fmt.Sprintf("agent-%d-%d", os.Getpid(), agentSeq))
 	os.RemoveAll(root)
@@ -315,7 +321,7 @@ func runAgent(sc agentScript) (obs agentObs) {
 	}
 	os.WriteFile(confPath, []byte(fmt.Sprintf(agentConfTemplate, bufDir, sc.quota, sc.mode, up.addr(), maxDur)), 0o644)
 
-	for g := 0; g < sc.gens; g++ {
+	for g := 0; g < sc.gens && !agentHung; g++ {
 		last := g == sc.gens-1
 		func() {
 			defer func() {
@@ -441,9 +447,10 @@ func runAgent(sc agentScript) (obs agentObs) {
 			select {
 			case <-stopped:
 				obs.stopMs = append(obs.stopMs, time.Since(t0).Milliseconds())
-			case <-time.After(20 * time.Second):
+			case <-time.After(12 * time.Second):
 				obs.stopMs = append(obs.stopMs, 999999) // never returned; the agent of this generation is abandoned
-				obs.panics = append(obs.panics, fmt.Sprintf("generation %d: the stop did not return within 20 s", g))
+				obs.panics = append(obs.panics, fmt.Sprintf("generation %d: the stop did not return within 12 s", g))
+				agentHung = true
 			}
 			select {
 			case <-chattyDone:
